@@ -36,7 +36,7 @@
    message counts as a notification when it is a request); null params are read as absent by the
    member parser: the message denoted is canon (norm m). *)
 From Coq Require Import List NArith ZArith Bool.
-From JV Require Import Bytes Json JsonProofs JsonPrint Msg Wire WireProofs WireSpecs WireMore.
+From JV Require Import Bytes Json JsonProofs JsonPrint JsonTree Msg Wire WireProofs WireSpecs WireMore.
 Import ListNotations.
 Local Open Scope N_scope.
 
@@ -197,3 +197,56 @@ Theorem c13_parse_back_batch_null_ids : forall (batch : bool) (ms : list jmsg) (
   parse_requests b = Parsed (map (fun m => to_parsed (canon (norm m))) ms).
 Proof. exact parse_back_batch'. Qed.
 Print Assumptions c13_parse_back_batch_null_ids.
+
+(* a client whose params value marshals to null writes "params":null; it parses back as absent *)
+Theorem c13_params_null_is_absent : forall (m : jmsg) (b : bytes),
+  msg_rt' m -> j_method m <> [] -> j_params m = null_bytes -> enc_msg m = Some b ->
+  (exists pre, b = pre ++ s_params ++ null_bytes ++ [125]) /\
+  parse_member b = canon (set_params [] m) /\ j_params (parse_member b) = [] /\
+  parse_msgs b = InMsgs false [canon (set_params [] m)].
+Proof. exact params_null_is_absent. Qed.
+Print Assumptions c13_params_null_is_absent.
+
+(* client batches (flag unset) with zero or several members are arrays too *)
+Theorem c13_parse_back_batch_flag : forall (ms : list jmsg) (b : bytes), length ms <> 1%nat ->
+  Forall (msg_rt_at' 1) ms -> enc_msgs false ms = Some b ->
+  enc_msgs true ms = Some b /\
+  parse_msgs b = InMsgs true (map (fun m => canon (norm m)) ms) /\
+  parse_requests b = Parsed (map (fun m => to_parsed (canon (norm m))) ms).
+Proof. exact parse_back_batch_flag. Qed.
+Print Assumptions c13_parse_back_batch_flag.
+
+(* -- valid JSON, explicitly (Json.valid = json.Valid: the independent validator) ---------------- *)
+
+Theorem c13_valid_json : forall (m : jmsg) (b : bytes), msg_rt' m -> enc_msg m = Some b -> Json.valid b = true.
+Proof. exact valid_json_msg. Qed.
+Print Assumptions c13_valid_json.
+
+Theorem c13_valid_json_batch : forall (batch : bool) (ms : list jmsg) (b : bytes),
+  Forall (msg_rt_at' 1) ms -> enc_msgs batch ms = Some b -> Json.valid b = true.
+Proof. exact valid_json_msgs. Qed.
+Print Assumptions c13_valid_json_batch.
+
+(* what json.Marshal(RawMessage) / json.Compact returns is one tight JSON value ... *)
+Theorem c13_compact_is_tight : forall p q : bytes, compact p = Some q -> tight_at 0 q = true /\ Json.valid q = true.
+Proof. exact (fun p q H => conj (compact_tight p q H) (compact_valid p q H)). Qed.
+Print Assumptions c13_compact_is_tight.
+
+(* ... valid d containers down as long as its nesting depth leaves room (limit 10000, envelope counted) *)
+Theorem c13_nesting_bound : forall (s : bytes) (d : N),
+  tight_at 0 s = true -> nest s + d <= max_depth -> tight_at d s = true.
+Proof. exact tight_shift. Qed.
+Print Assumptions c13_nesting_bound.
+
+(* on the single-line domain, under the nesting bound: produced, valid JSON, one line, valid UTF-8 *)
+Theorem c13_valid_json_ok : forall (batch : bool) (ms : list jmsg), Forall msg_ok' ms -> Forall (nest_ok 1) ms ->
+  exists b, enc_msgs batch ms = Some b /\ Json.valid b = true /\ (forall c, In c b -> 32 <= c) /\ valid_utf8 b = true.
+Proof. exact valid_json_ok. Qed.
+Print Assumptions c13_valid_json_ok.
+
+(* every id the member parser accepts (every id a server can echo) is null, a string or a number literal *)
+Theorem c13_ids_echoed_are_literals : forall data : bytes,
+  let i := j_id (parse_member data) in
+  i = [] \/ i = null_bytes \/ is_str_lit i = true \/ is_num_lit i = true.
+Proof. exact ids_echoed_are_literals. Qed.
+Print Assumptions c13_ids_echoed_are_literals.
